@@ -394,6 +394,12 @@ def every_line_converted(ctx: Ctx, rep: Report, rid: str = "R12.8") -> None:
         # loops over the lines
         for lp in [n for n in cfg.live if n.kind == "for" and any(isinstance(x, ast.Name) and x.id in lines_vars for x in ast.walk(n.ast.iter))]:
             var = src(lp.ast.target)
+            rebound = [x for b in lp.ast.body for x in ast.walk(b) if isinstance(x, ast.Name) and x.id == var and isinstance(x.ctx, ast.Store)]
+            if rebound:
+                par = rebound[0]
+                while getattr(par, "_parent", None) is not None and not isinstance(par, ast.stmt):
+                    par = par._parent
+                problems.append((par, f"the line variable `{var}` is re-bound inside the loop before the line is converted: what the converter (and its warning) sees is not the line of the text"))
             for path in loop_body_paths(cfg, lp):
                 end = path[-1][0]
                 if end is cfg.raise_exit:
@@ -583,5 +589,12 @@ def run(ctx: Ctx, rep: Report, tier: str) -> None:
     sub = Report("C12")
     normaliser_fixed_point(ctx, sub, rid="R06.5")
     rep.absorb(sub, "R12.9")
+    # R12.10 premise: members are parsed under the container's own limit (C05 R05.6): a member refused because the
+    # default limit was applied is dropped with a debug record only
+    from .c05 import r05_6
+
+    sub2 = Report("C12")
+    r05_6(ctx, sub2)
+    rep.absorb(sub2, "R12.10")
     r12_5(ctx, rep)
     r12_6(ctx, rep)
